@@ -22,6 +22,8 @@ pub struct DiffRef {
     /// group conditions may name groups that are not open / do not exist: if the crate accepts such a
     /// pattern at all, the condition must behave as "has not matched"
     pub free_cond_refs: bool,
+    /// spelling of back-references: 0 = `\N`, 1 = `\k<N>`, 2 = relative `\k<-n>`
+    pub ref_style: u8,
 }
 
 pub struct DP {
@@ -140,11 +142,11 @@ impl PatProp for DiffRef {
     }
 
     fn spell(&self, n: &Node) -> String {
-        n.to_pattern_with(&crate::ast::PrintOpts { cond_omit_empty_no: self.omit_empty_no, ..Default::default() })
+        n.to_pattern_with(&crate::ast::PrintOpts { cond_omit_empty_no: self.omit_empty_no, backref_style: if self.ref_style == 1 { 1 } else { 0 }, rel_backrefs: self.ref_style == 2, ..Default::default() })
     }
 
     fn extra(&self) -> serde_json::Value {
-        serde_json::json!({"omit_empty_no": self.omit_empty_no, "free_cond_refs": self.free_cond_refs, "f1_undisputed": self.f1_undisputed})
+        serde_json::json!({"omit_empty_no": self.omit_empty_no, "free_cond_refs": self.free_cond_refs, "f1_undisputed": self.f1_undisputed, "ref_style": self.ref_style})
     }
 
     fn eval(&self, _ctx: &RunCtx, p: &DP, _n: &Node, t: &str, pos: usize) -> Verdict {
